@@ -191,6 +191,13 @@ def F42():
     from formulaic.transforms import scale
     x = np.array([20, 30, 40], dtype="uint8")
     return not np.allclose(scale(x, center=False, _state={}), scale(x.astype(float), center=False, _state={}))
+def F43():
+    from formulaic.utils.constraints import LinearConstraints
+    try:
+        lc = LinearConstraints.from_spec("a = -1, a - -b = 3", ["a", "b"])
+    except Exception:
+        return True
+    return lc.constraint_matrix.tolist() != [[1.0, 0.0], [1.0, 1.0]] or list(lc.constraint_values) != [-1, 3]
 
 ids = sys.argv[1:] or [f"F{i}" for i in range(1, 26)]
 for i in ids:
